@@ -79,7 +79,7 @@ def run_options(mutate=None):
         import datetime
         Real = L["Solution"]
         specials = {
-            "terminal_psi": [None, 0.0, 0.5, 1.0], "output_file": [None, "run.h5"], "progress_interval": [None, 0, 7],
+            "terminal_psi": [None, 0.0, 0.5, 1.0, 0.3 + 0.4j], "output_file": [None, "run.h5"], "progress_interval": [None, 0, 7],
             "adaptive": [False, True], "pause_on_interrupt": [False, True], "include_screening": [False, True], "monitor": [False],
             "adaptive_window": [1, 10], "max_solve_retries": [0, 10], "max_iterations_per_step": [0, 1000], "monitor_update_interval": [0.0, 1.0],
             "skip_time": [0.0, 2.5], "save_every": [1, 100], "dt_init": [1e-6, 1e-3], "dt_max": [1e-1, 1e-3], "solve_time": [0.0, 10.0],
